@@ -352,7 +352,7 @@ def sign_cfgs(tier):
                    "kw": {"alpha": a, "temperature": t, "use_real_sigmoid": rs}})
   for a in ["auto", "auto_po2", None, 2.0]:
     for t, rs in [(8.0, True), (1.0, True), (2.0, False)]:
-      for th in ([None] if isinstance(a, str) else [None, 0.5]):
+      for th in ([None] if isinstance(a, str) else [None, 0.5, 0.33, 0.25]):
         cfgs.append({"cls": "stochastic_ternary",
                      "kw": {"alpha": a, "temperature": t, "threshold": th,
                             "use_real_sigmoid": rs}})
@@ -412,8 +412,17 @@ def sign_tensor_strategy(cfg):
                                    "zero"]))
       mag = 2.0 ** draw(st.integers(-5, 2))
       if kind == "zero" and cfg["cls"] == "binary" and not zero_ch:
+        # all-zero channel, or one whose largest magnitude is a float32 denormal
+        # (flushed to zero by the TF CPU kernels): region of the repaired
+        # C08-KF3/KF3b, now a normal part of the domain
         zero_ch = True
-        cols.append([0.0] * R)
+        if draw(st.booleans()):
+          cols.append([0.0] * R)
+        else:
+          cols.append([float(F32(v)) for v in draw(st.lists(
+              st.sampled_from([0.0, -0.0, 1e-40, -1e-42, 1.401298464324817e-45,
+                               -1.401298464324817e-45, 1.0e-38]),
+              min_size=R, max_size=R))])
         continue
       if kind == "small":
         vals = draw(st.lists(st.floats(-0.25, 0.25, width=32), min_size=R, max_size=R))
@@ -501,3 +510,86 @@ def auto_walk(cfg):
   for r in range(len(col0)):
     xs += [float(F32(col0[r])), float(F32(col1[r]))]
   return {"shape": [len(col0), 2], "xs": xs}
+
+
+# ---------------------------------------------------------------------------
+# deterministic probes
+
+
+def f32_nbrs(v, k=2):
+  """float32(v) with its +-1..k ulp neighbours, both signs."""
+  c = F32(v)
+  out = [c]
+  up = dn = c
+  for _ in range(k):
+    up = np.nextafter(up, F32(np.inf))
+    dn = np.nextafter(dn, F32(-np.inf))
+    out += [up, dn]
+  return [float(x) for x in out] + [-float(x) for x in out]
+
+
+def threshold_probes(cfg):
+  """Inference-time inputs at and around every documented decision threshold of
+  the sign-type quantizers: ternary default 0.33 (and the tempting 1/3), the
+  explicit threshold, 0 for the sign decision; the same values scaled by a
+  constant alpha and, for data-dependent thresholds, by the channel maximum."""
+  kw = cfg["kw"]
+  vals = []
+  for t in (0.0, 1.1754944e-38, 1e-30, 1e-7):
+    vals += f32_nbrs(t, 1)
+  vals += [1e-40, -1e-40, 1.401298464324817e-45, -1.401298464324817e-45]
+  if "ternary" in cfg["cls"]:
+    ths = [0.33, 1.0 / 3.0, 0.3333, 0.332, 0.5, 0.25, 2.0 / 3.0]
+    if kw.get("threshold") is not None:
+      ths.append(float(kw["threshold"]))
+    a = kw.get("alpha")
+    for t in ths:
+      vals += f32_nbrs(t, 2)
+      vals += [float(np.float64(t)), -float(np.float64(t))]   # rounded to f32 by the caller
+      if a is not None and not isinstance(a, str):
+        vals += f32_nbrs(t * float(a), 1)
+  else:
+    a = kw.get("alpha")
+    s_ = 1.0 if (a is None or isinstance(a, str)) else float(a)
+    vals += f32_nbrs(s_, 1) + f32_nbrs(0.5 * s_, 1)
+  vals += [1.5, -1.5, 3.0, -3.0]
+  vals = [float(F32(v)) for v in vals]
+  seen, out = set(), []
+  for v in vals:
+    key = (v, np.signbit(v))
+    if key not in seen:
+      seen.add(key)
+      out.append(v)
+  return out
+
+
+def wide_cfgs():
+  """Wide fixed-point formats (16-24 bits): large exact code indices, where a
+  float32 'v + u' style rounding loses the code (seeded change C08-s4)."""
+  cfgs = []
+  for cls in ("quantized_bits", "quantized_linear"):
+    for b, i in ((16, 0), (16, 3), (20, 0), (20, 3), (24, 0), (24, 23)):
+      cfgs.append({"cls": cls, "sigmoid": "hard",
+                   "kw": {"bits": b, "integer": i, "symmetric": 0 if i != 3 else 1,
+                          "keep_negative": True, "alpha": None}})
+  for b, i in ((16, 0), (20, 2)):
+    cfgs.append({"cls": "quantized_relu", "sigmoid": "hard",
+                 "kw": {"bits": b, "integer": i, "negative_slope": 0.0}})
+  cfgs.append({"cls": "quantized_tanh", "sigmoid": "hard", "kw": {"bits": 16, "symmetric": 0}})
+  cfgs.append({"cls": "quantized_sigmoid", "sigmoid": "hard", "kw": {"bits": 16, "symmetric": 0}})
+  return cfgs
+
+
+def wide_walk(cfg):
+  """Exact codes of large index (up to the 2^22-step domain bound) and a few
+  interior points next to them."""
+  m = G.model(cfg)
+  top = min(m["kmax"], 2 ** 22 - 8)
+  bot = max(m["kmin"], -(2 ** 22 - 8))
+  ks = [top, top - 1, top - 2, (top * 3) // 4 + 1, top // 2 + 1, top // 4 + 3,
+        top // 16 + 1, 2 ** 14 + 1, 2 ** 12 - 1, 1, 0]
+  if bot < 0:
+    ks += [bot, bot + 1, bot // 2 - 1, -(2 ** 14) - 1, -1]
+  t = [float(k) for k in ks if bot <= k <= top]
+  t += [top // 2 + 0.5, top // 16 + 0.25, 2.0 ** 12 + 0.75, 0.5]
+  return [float(v) for v in fixed_inv(m, np.array(t))]
